@@ -163,6 +163,42 @@ def unsupportedKinds (f : Func) : List String :=
        | _ => some "Call")
     | k => some k.name)).eraseDups
 
+/-- the same function with its blocks renumbered by `perm` (old index ↦ new index, a permutation that
+    keeps block 0) and its instructions renumbered consecutively in the new block order: what go/ssa
+    would have built had the source listed its branches in another order.  Nothing the canonical
+    text shows may depend on these numbers. -/
+def renumber (f : Func) (perm : Array Nat) : Func :=
+  let n := f.blocks.size
+  let pb := fun (b : Nat) => perm.getD b b
+  -- inverse: new index ↦ old index
+  let inv : Array Nat := (List.range n).foldl (fun a old => a.setIfInBounds (pb old) old) (Array.replicate n 0)
+  -- new instruction ids: walk the blocks in NEW order
+  let order : List Instr := (List.range n).flatMap (fun nb => f.blockInstrs (inv.getD nb nb))
+  let idMap : Array Nat := (order.zipIdx).foldl (fun a e => a.setIfInBounds e.1.id e.2) (Array.replicate f.instrs.size 0)
+  let pi := fun (id : Nat) => idMap.getD id id
+  let mapVal : Val → Val
+    | .instr id => .instr (pi id)
+    | .const c => .const { c with cid := match c.cid with | .site i p => .site (pi i) p | x => x }
+    | v => v
+  let mapInstr := fun (i : Instr) =>
+    { i with blk := pb i.blk, id := pi i.id,
+             refs := i.refs.map (fun r => (pi r.1, r.2)),
+             ops := i.ops.map (fun o => { o with val := o.val.map mapVal }) }
+  let newInstrs : Array Instr := (order.map mapInstr).toArray
+  let blocks : Array Block := (Array.range n).map (fun nb =>
+    match f.blocks[inv.getD nb nb]? with
+    | some bl => { idx := nb, succs := bl.succs.map pb, preds := bl.preds.map pb, instrs := bl.instrs.map mapInstr }
+    | none => { idx := nb, succs := [], preds := [], instrs := [] })
+  { f with recover := f.recover.map pb, blocks := blocks, instrs := newInstrs }
+
+/-- reverse the order of all blocks but the entry -/
+def reversePerm (n : Nat) : Array Nat :=
+  (Array.range n).map (fun b => if b == 0 then 0 else n - b)
+
+/-- rotate the non-entry blocks by one -/
+def rotatePerm (n : Nat) : Array Nat :=
+  (Array.range n).map (fun b => if b == 0 || n ≤ 2 then b else 1 + (b % (n - 1)))
+
 def canonStep (st : CanonState) (fs : List String) : CanonState × String :=
   let bad := (st, "bad-op")
   let upd := fun (g : PendingFn → Option PendingFn) =>
@@ -239,6 +275,22 @@ def canonStep (st : CanonState) (fs : List String) : CanonState × String :=
     | some f =>
       let policy := if pol == "keepall" then keepAllLiteralsPolicy else defaultLiteralPolicy
       (st, hexEncode (canonicalIR policy f) ++ "|" ++ hexEncode (canonicalIR policy (Sem.virtualView f (fun _ => true))))
+  | ["renumcanon", pol] =>
+    match st.last with
+    | none => bad
+    | some f =>
+      let policy := if pol == "keepall" then keepAllLiteralsPolicy else defaultLiteralPolicy
+      let base := canonicalIR policy f
+      let n := f.blocks.size
+      let s1 := canonicalIR policy (renumber f (reversePerm n)) == base
+      let s2 := canonicalIR policy (renumber f (rotatePerm n)) == base
+      (st, (if s1 then "same" else "differs") ++ "|" ++ (if s2 then "same" else "differs"))
+  | ["renumtext", pol] =>
+    match st.last with
+    | none => bad
+    | some f =>
+      let policy := if pol == "keepall" then keepAllLiteralsPolicy else defaultLiteralPolicy
+      (st, hexEncode (canonicalIR policy f) ++ "|" ++ hexEncode (canonicalIR policy (renumber f (reversePerm f.blocks.size))))
   | ["viewcanon", pol] =>
     match st.last with
     | none => bad
